@@ -733,7 +733,7 @@ def run(chk: core.Check, trusted: typing.List[str], replay: typing.Optional[str]
             return chk.finish()
         return run_replay(chk, replay, exe)
 
-    res = core.coq_check('C03', [])
+    res = core.coq_check('C03', ['c01', 'codec_tpl'])
     chk.proof_coverage(res, trusted)
     t_coq = round(time.time() - t_start, 1)
     broken: typing.List[str] = []
